@@ -150,6 +150,36 @@ pub fn exec(op: &str, a: &[u64]) -> Result<Outcome, String> {
         }
         let old_len = old.len() as i64;
         o.check((n_new as i64 - old_len).abs() <= 8, "more than one bounded edit");
+        // the returned set contains the old set re-indexed for the length change.  The edit replaced some span
+        // old[p'..len-s') (at most two characters: a swap) by a span of the new word; with repeated characters
+        // several (p', s') explain the same pair of words, so the clause is demanded existentially: for SOME
+        // explanation every protected position lies in the untouched prefix (index kept) or suffix (index moved by
+        // the length difference) and is in the returned set.
+        let pmax = p.min(old.len()).min(rw_real.len());
+        let qmax = old.iter().rev().zip(rw_real.iter().rev()).take_while(|(x, y)| x == y).count();
+        let mut explained = false;
+        'outer: for pp in 0..=pmax {
+            for ss in 0..=qmax {
+                if pp + ss > old.len() || pp + ss > rw_real.len() || old.len() - pp - ss > 2 {
+                    continue;
+                }
+                let ok = excl.iter().filter(|&&i| i < old.len()).all(|&i| {
+                    if i < pp {
+                        e.contains(&i)
+                    } else if i >= old.len() - ss {
+                        let j = i as i64 + delta;
+                        j >= 0 && e.contains(&(j as usize))
+                    } else {
+                        false
+                    }
+                });
+                if ok {
+                    explained = true;
+                    break 'outer;
+                }
+            }
+        }
+        o.check(explained, "returned exclusion set is not the old set re-indexed for the length change (a protected position was lost, not shifted, or edited)");
     } else {
         let mut ex = excl.clone();
         ex.sort();
